@@ -121,10 +121,26 @@ def hostile_stream(r, framing, layout, uniq, cls):
     if cls == 'valid':
         frames = [valid_frame(r, framing, layout, uniq, write=(i % 2 == 0)) for i in range(r.randint(1, 5))]
         return b''.join(f for _, f in frames), frames
+    if cls == 'foreign-traffic':
+        # a shared line: well-formed frames for other units (of other lengths than ours) between the frames for this server
+        frames, parts = [], []
+        for i in range(r.randint(2, 6)):
+            if r.random() < 0.5:
+                other = r.choice([2, 9, 200])
+                m = r.choice([{'dir': REQ, 'fc': 16, 'address': 3, 'registers': [r.randrange(65536) for _ in range(r.randint(1, 20))]},
+                              {'dir': REQ, 'fc': 3, 'address': 1, 'count': 2}, {'dir': REQ, 'fc': 15, 'address': 0, 'bits': [True] * r.randint(1, 40)}])
+                parts.append(ADU.build(framing, other, S.encode(m), tid=r.randrange(65536)) if framing != 'tls' else b'')
+            else:
+                m, f = valid_frame(r, framing, layout, uniq, write=(i % 2 == 0))
+                frames.append((m, f))
+                parts.append(f)
+        ALIGNED[0] = [p for p in parts if p]
+        return b''.join(parts), frames
     raise ValueError(cls)
 
 
-CLASSES = ['random', 'malformed-pdu', 'length-fields', 'mutated-traffic', 'valid', 'malformed-pdu', 'mutated-traffic']
+ALIGNED = [None]          # the frame-aligned reads of the last 'foreign-traffic' stream (one frame per read)
+CLASSES = ['random', 'malformed-pdu', 'length-fields', 'mutated-traffic', 'valid', 'malformed-pdu', 'mutated-traffic', 'foreign-traffic']
 
 
 def split(r, data, datagram):
@@ -254,6 +270,16 @@ def tls_candidates(data, loose=False):
     return out
 
 
+def rtu_one_frame_per_read(reads):
+    """input predicate: every read is exactly one CRC-valid RTU frame (the only traffic the one-frame-per-call RTU framer keeps
+    up with; a read holding two frames leaves the serial server one answer behind for good)"""
+    for chunk in reads:
+        c = [f for f in ADU.candidates('rtu', REQ, chunk) if f.start == 0 and f.end == len(chunk)]
+        if not c:
+            return False
+    return True
+
+
 def tcp_desync(front, stream, reads):
     """input predicate of the tcp-length-inconsistent-with-pdu region: the reference receiver cannot parse what one receiver
     instance is given - the connection's stream, or (datagram front-ends, one receive call per datagram) any single datagram"""
@@ -268,9 +294,13 @@ def tcp_desync(front, stream, reads):
 
 def probe_reads(framing, layout, n):
     addrs = layout_addresses(layout['units'][UNIT], layout['zero_mode'])
-    a = addrs['h'][2][0]
+    cells = addrs['h'][2]
     out = []
+    a = cells[0]
     for i in range(n):
+        # consecutive probes differ (address cycling through the table, one or two registers where possible): an endpoint that
+        # answers one request late cannot pass with the answer to the previous probe
+        a = cells[(n - 1 - i) % len(cells)]
         m = {'dir': REQ, 'fc': 3, 'address': a, 'count': 1}
         out.append((m, ADU.build(framing, UNIT, S.encode(m), tid=0x5000 + i)))
     return a, out
@@ -304,6 +334,8 @@ def check(run, case, _second=False):
     stream = b''.join(reads)
     if front.startswith('tw') and len(stream) < 5000 and any(f.msg.get('fc') == 8 and f.msg.get('sub') == 4 for f in ADU.candidates(framing, REQ, stream)):
         regs.add('twisted-listen-only-is-permanent')
+    if front == 'sync-serial' and framing == 'rtu' and not rtu_one_frame_per_read(reads):
+        regs.add('rtu-one-frame-per-call')
     kinds = {}
     # (1) escapes
     if front.startswith('tw'):
@@ -398,6 +430,8 @@ def check(run, case, _second=False):
     excuse = set()
     if 'twisted-listen-only-is-permanent' in regs:
         excuse |= {'probe-unanswered'}
+    if 'rtu-one-frame-per-call' in regs:
+        excuse |= {'probe-unanswered'}
     if 'tcp-length-inconsistent-with-pdu' in regs:
         excuse |= {'unjustified-store-change-after-tcp-desync'}
     if 'ascii-bad-lrc-blocks-forever' in regs:
@@ -405,7 +439,7 @@ def check(run, case, _second=False):
     if 'pdu-trailing-bytes-ignored' in regs or 'fc15-quantity-vs-bytecount' in regs or 'ascii-lrc-field-parsed-leniently' in regs:
         excuse |= {'store-change-from-nonconformant-pdu'}
     left = set(kinds) - excuse
-    used = {'twisted-listen-only-is-permanent': {'probe-unanswered'},
+    used = {'twisted-listen-only-is-permanent': {'probe-unanswered'}, 'rtu-one-frame-per-call': {'probe-unanswered'},
             'tcp-length-inconsistent-with-pdu': {'unjustified-store-change-after-tcp-desync'},
             'ascii-bad-lrc-blocks-forever': {'probe-unanswered-after-ascii-span'},
             'pdu-trailing-bytes-ignored': {'store-change-from-nonconformant-pdu'}, 'fc15-quantity-vs-bytecount': {'store-change-from-nonconformant-pdu'},
@@ -414,7 +448,8 @@ def check(run, case, _second=False):
         for slug in sorted(regs):
             if not (used.get(slug, set()) & set(kinds)):
                 continue
-            run.known(slug, {'twisted-listen-only-is-permanent': 'a force-listen-only request silences the Twisted front-end for every later connection',
+            run.known(slug, {'rtu-one-frame-per-call': 'a read that is not exactly one RTU frame leaves frames parked in the one-frame-per-call framer: the serial server answers every later request one read late',
+                             'twisted-listen-only-is-permanent': 'a force-listen-only request silences the Twisted front-end for every later connection',
                              'tcp-length-inconsistent-with-pdu': 'after an MBAP frame whose length disagrees with its PDU the TCP framer executes requests decoded from mis-aligned bytes',
                              'ascii-lrc-field-parsed-leniently': 'an ASCII frame whose LRC field is not two hex digits is accepted (int(x,16) leniency) and executed',
                              'fc15-quantity-vs-bytecount': 'FC15 whose quantity exceeds the bits present is executed with the bits present',
@@ -437,7 +472,8 @@ def _ascii_stray_colon(g):
 
 
 def gen_layout(r):
-    return {'single': True, 'zero_mode': bool(r.getrandbits(1)), 'units': {UNIT: SM.unit_layout(r, share=False, small=True)}}
+    # (a third of the servers are multi-unit servers hosting one unit: the framers' unit filter is then active)
+    return {'single': r.random() < 0.67, 'zero_mode': bool(r.getrandbits(1)), 'units': {UNIT: SM.unit_layout(r, share=False, small=True)}}
 
 
 def run(run):
@@ -452,9 +488,13 @@ def run(run):
     for front, framing in FRONTS:
         for i in range(n):
             layout = gen_layout(r)
+            if framing == 'tls':
+                layout['single'] = True          # TLS carries no unit id: only single-context servers can be addressed
             cls = CLASSES[i % len(CLASSES)] if not (i == n - 1 and run.shard in (None, 0) and front in ('sync-tcp', 'aio-tcp', 'tw-tcp', 'sync-serial')) else 'blob'
             data, frames = hostile_stream(r, framing, layout, uniq, cls)
             reads = split(r, data, front in FE.DATAGRAM) if cls != 'blob' else [data[i:i + 1024] for i in range(0, len(data), 1024)]
+            if cls == 'foreign-traffic' and (i // len(CLASSES)) % 2 == 0 and ALIGNED[0]:
+                reads = list(ALIGNED[0])            # one whole frame per read
             case = {'front': front, 'framing': framing, 'layout': layout, 'reads': reads, 'class': cls}
             if STALLS[0] >= 3 or FE.STALL_COUNT[0] >= 6:
                 break                     # a front-end that blocks for ever costs two guard periods per case: three witnesses are enough
